@@ -24,6 +24,7 @@ type c07Case struct {
 	Abandon string  `json:"abandon"` // "", RSET, QUIT, HELLO, disconnect, srvclose
 	Chunks  int     `json:"chunks"`  // abandon cases: number of non-LAST chunks sent before abandoning
 	Mode    srvMode `json:"mode"`
+	Limit   string  `json:"limit"` // "": no MaxMessageBytes; "exact": the size of the conversation's first message; "plus1"
 }
 
 func init() {
@@ -45,9 +46,16 @@ func c07Run(ctx *core.Ctx) {
 				segs = append(segs, "bytes")
 			}
 			for cut := 0; cut <= n; cut++ {
-				for _, kind := range []string{"close", "timeout", "reset"} {
+				for ki, kind := range []string{"close", "timeout", "reset"} {
 					for _, sg := range segs {
 						emit(c07Case{Conv: ci, Name: c.Name, Cut: cut, Kind: kind, Seg: sg, Mode: c.Mode})
+					}
+					// the same crash points with a size limit exactly at / one above the message size
+					if len(c.Msgs[0]) > 0 {
+						emit(c07Case{Conv: ci, Name: c.Name, Cut: cut, Kind: kind, Seg: segs[(cut+ki)%2], Mode: c.Mode, Limit: []string{"exact", "plus1"}[(cut+ki)%2]})
+						if ctx.Thorough() {
+							emit(c07Case{Conv: ci, Name: c.Name, Cut: cut, Kind: kind, Seg: segs[(cut+ki)%2], Mode: c.Mode, Limit: []string{"plus1", "exact"}[(cut+ki)%2]})
+						}
 					}
 				}
 			}
@@ -109,9 +117,16 @@ func c07Exec(ctx *core.Ctx, c c07Case) {
 			incomplete = true
 		}
 	}
-	ctx.Eval(fmt.Sprintf("%d|%d|%s|%s", c.Conv, c.Cut, c.Kind, c.Seg), incomplete)
+	ctx.Eval(fmt.Sprintf("%d|%d|%s|%s|%s", c.Conv, c.Cut, c.Kind, c.Seg, c.Limit), incomplete)
 
-	rig := newRig(cv.Mode, nil)
+	rig := newRig(cv.Mode, func(s *smtp.Server) {
+		switch c.Limit {
+		case "exact":
+			s.MaxMessageBytes = int64(len(cv.Msgs[0]))
+		case "plus1":
+			s.MaxMessageBytes = int64(len(cv.Msgs[0])) + 1
+		}
+	})
 	rig.BE.H.Data = func(sess int, r *rec.Reader, st smtp.StatusCollector) error {
 		err := r.ReadAll(64)
 		if err != nil && err.Error() == "EOF" {
@@ -141,7 +156,7 @@ func c07Exec(ctx *core.Ctx, c c07Case) {
 	ctx.Add("backend_events", countBackendEvents(ev))
 	ctx.Add("replies_parsed", int64(len(replies)))
 	fail := func(sig, msg string) {
-		ctx.Violate(sig, msg+fmt.Sprintf(" [conv=%s mode=%s cut=%d/%d kind=%s seg=%s]", cv.Name, cv.Mode, c.Cut, len(all), c.Kind, c.Seg), c, witness(rig.Log, replies))
+		ctx.Violate(sig, msg+fmt.Sprintf(" [conv=%s mode=%s cut=%d/%d kind=%s seg=%s limit=%q]", cv.Name, cv.Mode, c.Cut, len(all), c.Kind, c.Seg, c.Limit), c, witness(rig.Log, replies))
 	}
 	// reader verdicts
 	des := dataEnds(ev)
